@@ -173,6 +173,46 @@ pub fn chronobox_fifo(input: &mut &[u8]) -> Vec<FifoEntry> {
     .unwrap()
 }
 
+#[cfg(feature = "verif-hooks")]
+#[doc(hidden)]
+pub mod verif_hooks {
+    //! Verification hooks: thin public wrappers around the private
+    //! one-element parsers and field-wise constructors of FIFO entries.
+    use super::*;
+
+    /// Calls the private `fifo_entry` parser.
+    pub fn verif_fifo_entry(input: &mut &[u8]) -> Option<FifoEntry> {
+        fifo_entry(input).ok()
+    }
+    /// Calls the private `scalers_block` parser.
+    pub fn verif_scalers_block(input: &mut &[u8]) -> bool {
+        scalers_block(input).is_ok()
+    }
+    impl TimestampCounter {
+        /// Same masking as the parser; `None` for an invalid channel.
+        pub fn verif_new(channel: u8, timestamp: u32, trailing: bool) -> Option<Self> {
+            Some(Self {
+                channel: ChannelId::try_from(channel).ok()?,
+                timestamp: timestamp & 0x00FFFFFE,
+                edge: if trailing {
+                    EdgeType::Trailing
+                } else {
+                    EdgeType::Leading
+                },
+            })
+        }
+    }
+    impl WrapAroundMarker {
+        /// Same masking as the parser.
+        pub fn verif_new(timestamp_top_bit: bool, counter: u32) -> Self {
+            Self {
+                timestamp_top_bit,
+                counter: counter & 0x007FFFFF,
+            }
+        }
+    }
+}
+
 // Known Chronobox names.
 const CHRONOBOX_NAMES: [&str; 4] = ["cb01", "cb02", "cb03", "cb04"];
 
